@@ -66,6 +66,9 @@ def plan(tier, seed):
     for i, (s, e) in enumerate(split(ntrunc, 16)):
         shards.append({"w": "trunc", "n": e - s, "rs": seed * 7919 + i})
     shards.append({"w": "names", "rs": seed})
+    if tier == "thorough":
+        for i in range(16):
+            shards.append({"w": "atheris", "seconds": 60, "rs": seed * 131 + i})
     fams = sorted(gen.scale_families())
     for i, (s, e) in enumerate(split(len(fams), 6)):
         shards.append({"w": "scale", "families": fams[s:e],
@@ -126,6 +129,8 @@ def run_shard(tier, shard, res: Result):
         run_names(shard, res)
     elif w == "scale":
         run_scale(shard, res)
+    elif w == "atheris":
+        run_atheris(shard, res)
     for k, v in contracts.EVALS.items():
         res.monitors.setdefault(k, [0, 0])
         res.monitors[k][0] = v
@@ -289,6 +294,46 @@ def run_scale(shard, res):
                 else:
                     res.inconclusive.append("cpu ratio for %s not reproducible" % name)
     res.sample({"workload": "scale", "families": shard["families"], "sizes": [n0, 8 * n0]}, 1)
+
+
+def run_atheris(shard, res):
+    """Coverage-guided mutation (libFuzzer via atheris) as a workload generator; the
+    subprocess applies the same monitors and hands back its Result."""
+    import json
+    import subprocess
+    import sys
+    from .. import core
+    d = tempfile.mkdtemp(prefix="rv-atheris-")
+    out = os.path.join(d, "out.json")
+    try:
+        try:
+            p = subprocess.run([sys.executable, "-m", "rv.fuzz_c02", out,
+                                str(shard["seconds"]), str(shard["rs"])],
+                               cwd=core.VERIF_DIR, timeout=shard["seconds"] + 240,
+                               stdout=subprocess.PIPE, stderr=subprocess.PIPE)
+        except subprocess.TimeoutExpired:
+            res.inconclusive.append("atheris worker exceeded its wall-clock watchdog")
+            return
+        if not os.path.exists(out):
+            res.observe("atheris", "unavailable")
+            res.count("bytes:atheris-unavailable")
+            return
+        r = json.load(open(out))
+        res.evaluations += r["evaluations"]
+        for h in r["hashes"]:
+            if len(res.hashes) < res.MAX_HASHES:
+                res.hashes.add(h)
+        for k, v in r["counters"].items():
+            res.count(k, v)
+        for v in r["violations"]:
+            res.violation(v["sig"], v["witness"])
+        for k, v in r["viol_counts"].items():
+            res.viol_counts[k] = max(res.viol_counts.get(k, 0), v)
+        res.observe("atheris", "ran")
+        res.sample({"workload": "atheris", "executions": r["evaluations"]}, 1)
+    finally:
+        import shutil
+        shutil.rmtree(d, ignore_errors=True)
 
 
 def replay(witness, res: Result):
